@@ -26,6 +26,11 @@ inductive Clause
   | utf8Wellformed       -- ValidateUTF8 returned bytes that are not well-formed UTF-8
   | utf8KeepsValid       -- ValidateUTF8 changed a well-formed input
   | noCrash              -- the real code crashed, aborted or hung while processing the case
+  | tlsViolationNotRejected -- a frame from the network that visibly violates the format was not answered with an error (the reader kept waiting / saw end-of-stream)
+  | connUnauthLimit      -- a peer that is not authenticated got a frame of more than 1 MiB (or anything after it) delivered
+  | connFrames           -- a started connection did not deliver exactly the messages of the leading well-formed frames, in order
+  | connEnds             -- a started connection did not shut itself down after the peer's end of stream
+  | stateRestore         -- a well-framed state file was refused, or its one applicable record did not arrive in the object
   deriving Repr, DecidableEq
 
 def Clause.name : Clause → String
@@ -36,6 +41,9 @@ def Clause.name : Clause → String
   | .messageOnlyObjects => "messageOnlyObjects" | .messageNotObjectText => "messageNotObjectText" | .noCrash => "no_crash"
   | .depthLimit => "depthLimit"
   | .utf8Wellformed => "utf8Wellformed" | .utf8KeepsValid => "utf8KeepsValid"
+  | .tlsViolationNotRejected => "tlsViolationNotRejected"
+  | .connUnauthLimit => "connUnauthLimit" | .connFrames => "connFrames" | .connEnds => "connEnds"
+  | .stateRestore => "stateRestore"
 
 /-! ### frames from the network -/
 
@@ -95,6 +103,45 @@ def tlsSpec (max : Option Nat) (bs : Bytes) (o : TlsObs) : Option Clause :=
       match specHeader bs with
       | some (n, _) => if !withinLimit max n then some .tlsLimitLate else none
       | none => none
+
+/-- A digit string that starts with '0' and goes on. -/
+def zeroThenDigit : Bytes → Bool
+  | a :: _ :: _ => a == 48
+  | _ => false
+
+/-- Does the stream, as far as it goes, VISIBLY violate the frame format (under the limit `max`)?  Read off the format
+    `digits ":" payload ","`:
+    * a length field of more than nine digits, or a leading zero followed by another digit;
+    * a byte that is neither a digit nor ':' where the length field should end, or no digit at all before the ':';
+    * a complete header that declares more than the limit;
+    * header within the limit, all declared bytes and one more present — and that byte is not ','.
+    A stream that is merely truncated (a proper prefix of a frame) does not violate anything yet. -/
+def specViolation (max : Option Nat) (bs : Bytes) : Bool :=
+  let ds := bs.takeWhile isDigit
+  if decide (ds.length > 9) || zeroThenDigit ds then true
+  else
+    match bs.drop ds.length with
+    | [] => false
+    | c :: tail =>
+      if c != colon then true
+      else if ds.isEmpty then true
+      else
+        let n := digitsVal 0 ds
+        if !withinLimit max n then true
+        else
+          match tail.drop n with
+          | [] => false
+          | t :: _ => t != comma
+
+/-- The positive clause "frames from the network that violate the framing format are always rejected with an error":
+    on a stream that visibly violates the format the reader must answer with an error — not keep reading until the
+    stream ends (on a live connection: wait for bytes that may never come), and not with a payload. -/
+def tlsRejectSpec (max : Option Nat) (bs : Bytes) (o : TlsObs) : Option Clause :=
+  if specViolation max bs then
+    match o with
+    | .err _ => none
+    | _ => some .tlsViolationNotRejected
+  else none
 
 def obsOfTls (r : TlsResult) : TlsObs :=
   match r.out with
